@@ -34,7 +34,7 @@ ASSUMPTIONS = [
     "what clear() does to a directive's options is not stated by the property and is not judged",
     "blank-line conventions between elements are not judged, except that option lines directly follow the directive heading",
 ]
-PROBES = ["depth_ge_2", "depth_ge_3", "multi_line_paragraph", "paragraph_with_leading_spaces", "option_after_content",
+PROBES = ["list_ge_10_items", "depth_ge_2", "depth_ge_3", "multi_line_paragraph", "paragraph_with_leading_spaces", "option_after_content",
           "title_changed_after_serialise", "clear_root", "clear_directive", "serialise_ge_3", "section_used",
           "mutation_after_serialise"]
 
@@ -147,7 +147,7 @@ def run_history(spec, serialise=True, upto=None):
             hw.field(f"f{b}", f"{m} value")
             hm.children.append(Node("field", hm.depth, name=f"f{b}", text=f"{m} value", marker=m))
         elif op in ("bul", "enum"):
-            k = 1 + b % 3
+            k = 1 + b % 3 if c != 3 else 9 + b % 4       # sometimes 9-12 items (two-digit enumerators)
             marks = [mk() for _ in range(k)]
             items = [f"{marks[j]} item" for j in range(k)]
             (hw.bulleted_list if op == "bul" else hw.enumerated_list)(*items)
@@ -296,6 +296,8 @@ def evaluate(spec, ctx):
             ctx.probes[p] += 1
     if stats["n_ser"] >= 3:
         ctx.probes["serialise_ge_3"] += 1
+    if any(op in ("bul", "enum") and c == 3 and 9 + b % 4 >= 10 for op, _a, b, c in spec["ops"]):
+        ctx.probes["list_ge_10_items"] += 1
     if any(op == "text" and (1 + b % 4) > 1 for op, _a, b, _c in spec["ops"]):
         ctx.probes["multi_line_paragraph"] += 1
     if any(op == "text" and c for op, _a, _b, c in spec["ops"]):
